@@ -11,6 +11,9 @@ fn main() {
   let comp = std::env::args().nth(1).unwrap_or_else(|| "stack".into());
   let par: usize = std::env::var("VERIF_E2E_PAR").ok().and_then(|s| s.parse().ok()).unwrap_or(24);
   std::panic::set_hook(Box::new(|_| {}));
+  if std::env::var("VERIF_TRACE").is_ok() {
+    let _ = tracing_subscriber::fmt().with_max_level(tracing::Level::DEBUG).with_writer(std::io::stderr).try_init();
+  }
   let lines: Vec<String> = std::io::stdin()
     .lock()
     .lines()
